@@ -3,7 +3,7 @@ import os, sys, json
 sys.path.insert(0, os.path.join(os.path.dirname(os.path.abspath(__file__)), '..', 'lib'))
 import vcommon as V
 
-PROPS = ['props/C11.v', 'props/C11_src.v']
+PROPS = ['props/C11.v', 'props/C11_src.v', 'props/Lint.v']
 GEN_OBLIGATIONS = ['C11_schema_matches_spec', 'C11_schema_names_nodup']
 ASSUMPTIONS = [
     "encoding/json's number formatting (float64/int -> literal) is Go's: the model receives the literal json.Marshal printed "
